@@ -176,6 +176,22 @@ func buildRoute(route int, rm *ref.Msg) (msg *ast.DataMessage, err string) {
 			return nil, fmt.Sprintf("sml.Parse(%q): %d messages, errors %v", trunc(text, 300), len(ms), errs)
 		}
 		return ms[0].SetSessionIDAndSystemBytes(rm.Session, rm.System[:]), ""
+	case 4: // a template completed twice from one ancestor: first the other way (encoded and dropped), then this way
+		var it ast.ItemNode = ast.NewEmptyItemNode()
+		fill := map[string]interface{}{}
+		if rm.Item != nil {
+			ctr := 0
+			it = Build(templatize(rm.Item, &ctr, fill))
+		}
+		anc := ast.NewDataMessage(rm.Name, rm.Stream, rm.Function, 2, rm.Dir, it).FillVariables(fill).SetSessionIDAndSystemBytes(rm.Session, rm.System[:])
+		if rm.Function%2 == 1 {
+			other := anc.SetWaitBit(rm.W != 1)
+			_ = other.ToBytes()
+			_ = other.String()
+		}
+		readdressed := anc.SetSessionIDAndSystemBytes((rm.Session+1)%65536, []byte{9, 9})
+		_ = readdressed.SetWaitBit(false).ToBytes()
+		return anc.SetWaitBit(rm.W == 1), ""
 	case 3: // the decoder's own output (decode of the reference encoding)
 		d, ok := hsms.Parse(ref.EncodeMsg(rm))
 		if !ok {
@@ -186,7 +202,7 @@ func buildRoute(route int, rm *ref.Msg) (msg *ast.DataMessage, err string) {
 	panic("route")
 }
 
-var routeNames = []string{"constructors", "template+fill", "sml-print-parse", "decoder-output"}
+var routeNames = []string{"constructors", "template+fill", "sml-print-parse", "decoder-output", "second-completion-of-a-shared-template"}
 
 func init() {
 	h.Register(&h.Check{
@@ -197,13 +213,13 @@ func init() {
 		Build: func(tier string, seed int64) []h.Space {
 			var sp []h.Space
 			item := ref.List(ref.Uints(ref.U2, 0x1234), ref.Ascii("x"))
-			sp = append(sp, h.Space{Name: "stream-function-wbit-x-route", Count: product(128, 256, 2, 2, 4),
+			sp = append(sp, h.Space{Name: "stream-function-wbit-x-route", Count: product(128, 256, 2, 2, 5),
 				Describe: func(i uint64) interface{} {
-					d := unrank(i, 128, 256, 2, 2, 4)
+					d := unrank(i, 128, 256, 2, 2, 5)
 					return fmt.Sprintf("S%dF%d W=%d item=%v route=%s", d[0], d[1], d[2], d[3] == 1, routeNames[d[4]])
 				},
 				Run: func(c *h.Ctx, i uint64) {
-					d := unrank(i, 128, 256, 2, 2, 4)
+					d := unrank(i, 128, 256, 2, 2, 5)
 					if d[2] == 1 && d[1]%2 == 0 {
 						c.Case(0, false, "skip-w-even")
 						return
@@ -322,6 +338,51 @@ func init() {
 					msg := ast.NewHSMSDataMessage("", 1, 3, 1, "H<->E", it, 2, []byte{9, 9, 9, 9})
 					roundTripBig(c, msg, rm, fmt.Sprintf("%s with %d elements nested=%v", s.k, s.n, s.nested))
 					c.Case(0, true, "size")
+				}})
+			// messages whose text is longer than one maximal item (the 16,777,215-byte limit is per item, not per message)
+			type bigMsg struct {
+				desc string
+				mk   func() (ast.ItemNode, *ref.Node)
+			}
+			asc := func(n int) (ast.ItemNode, *ref.Node) { nd := bigNode(ref.A, n); return Build(nd), nd }
+			bigs := []bigMsg{
+				{"L[2] of A[9000000]", func() (ast.ItemNode, *ref.Node) {
+					a, ra := asc(9000000)
+					return ast.NewListNode(a, a), ref.List(ra, ra)
+				}},
+				{"L[300] of A[65536]", func() (ast.ItemNode, *ref.Node) {
+					a, ra := asc(65536)
+					vals := make([]interface{}, 300)
+					ch := make([]*ref.Node, 300)
+					for i := range vals {
+						vals[i], ch[i] = a, ra
+					}
+					return ast.NewListNode(vals...), ref.List(ch...)
+				}},
+				{"L[2] of (A[16777215], U1[3])", func() (ast.ItemNode, *ref.Node) {
+					a, ra := asc(16777215)
+					return ast.NewListNode(a, ast.NewUintNode(1, 1, 2, 3)), ref.List(ra, ref.Uints(ref.U1, 1, 2, 3))
+				}},
+				{"L[1] of L[2] of B[8388608]", func() (ast.ItemNode, *ref.Node) {
+					nd := bigNode(ref.B, 8388608)
+					b := Build(nd)
+					return ast.NewListNode(ast.NewListNode(b, b)), ref.List(ref.List(nd, nd))
+				}},
+				{"A[16777202] (message length exactly 2^24)", func() (ast.ItemNode, *ref.Node) { return asc(16777202) }},
+				{"A[16777201] (message length 2^24-1)", func() (ast.ItemNode, *ref.Node) { return asc(16777201) }},
+			}
+			sp = append(sp, h.Space{Name: "messages-longer-than-one-maximal-item", Count: uint64(len(bigs)), ChunkHint: 1,
+				Describe: func(i uint64) interface{} { return bigs[i].desc },
+				Run: func(c *h.Ctx, i uint64) {
+					it, n := bigs[i].mk()
+					rm := &ref.Msg{Stream: 1, Function: 3, W: 1, Dir: "H<->E", Session: 2, System: [4]byte{9, 9, 9, 9}, Item: n}
+					msg := ast.NewHSMSDataMessage("", 1, 3, 1, "H<->E", it, 2, []byte{9, 9, 9, 9})
+					b := msg.ToBytes()
+					if want := ref.EncodeMsg(rm); !bytes.Equal(b, want) {
+						c.Fail("rt-encoder-vs-reference:big-message", bigs[i].desc, fmt.Sprintf("ToBytes() has %d bytes starting %x; reference %d bytes starting %x", len(b), truncB(b, 20), len(want), truncB(want, 20)))
+					}
+					roundTripBig(c, msg, rm, bigs[i].desc)
+					c.Case(0, true, "big-message")
 				}})
 			return sp
 		},
